@@ -18,6 +18,7 @@ LEVEL_NOTE = ("Not decided: that the walk returns exactly the outermost nodes in
               "tree-sitter's cursor API would be needed) and the cited line/column values.  Trusted: TreeCursor navigation semantics.")
 LEVEL_TEXT += (' Excerpt::from_source stores the row and start column it was given (only the end column is clamped to the line).')
 
+LEVEL_TEXT += (' The pretty display skips the excerpt only under node.byte_range().is_empty().')
 WITNESSES = ["W4"]
 
 
@@ -378,6 +379,12 @@ def run(prog, rep):
             row = canon(strip(tr.operand(ex[0][1]["args"][2])))
             ok = ok and re.match(r"^Node::start_position\(.*\)\.row$", row) is not None
         rep.check(ok, "C18.D", "pretty display :: columns", f.loc(), "row = start row, columns = start column .. start column + characters on the first line", "pretty display excerpt arguments changed")
+        # the excerpt (which is what cites line and column) is left out for an empty node only
+        if len(ex) == 1:
+            gs = [g for g in dominating_guards(f.body, tr, ex[0][0]) if not canon(g.cond).startswith("Try::branch(") and g.variant not in ("Missing", "Unexpected", "Continue")]
+            okg = all(re.match(r"^(\w+::)*is_empty\(&Node::byte_range\(", canon(g.cond)) and g.value is False for g in gs)
+            rep.check(okg, "C18.D", "pretty display :: excerpt shown", f.loc(), "skipped only when node.byte_range().is_empty()",
+                      "the excerpt that cites the error's line and column is also skipped under %s" % [("%s = %s" % (canon(g.cond)[:80], g.value)) for g in gs if not (re.match(r"^(\w+::)*is_empty\(&Node::byte_range\(", canon(g.cond)) and g.value is False)][:2])
     # the excerpt cites the position it was given: row and start column are stored as passed (only the end may be clamped to the line)
     fs = [f for f in prog.shape_fns() if f.name == "from_source" and (f.self_path or "").endswith("parse_error::Excerpt") and f.body is not None]
     if len(fs) != 1:
